@@ -28,7 +28,7 @@ CLAIMED: dict[str, tuple[str, str, str, str, str]] = {
         "every edge of the TLC state graph replayed on the real WriteFlowControl with exact state comparison; scenario runs of the real "
         "asyncio stream/datagram adapters (non-reading peer, RST, cancellation of one parked sender); TLA+ spec DatagramFlow (datagram adapter = "
         "sendto + drain, aclose = close + shielded wait, the event loop's FIFO of ready callbacks) model-checked and replayed (random + directed "
-        "macro-walks: 1-3 environment actions inside one loop iteration, then the loop runs to rest) on DatagramEndpoint and the datagram listener adapter",
+        "macro-walks: 1-3 environment actions inside one loop iteration, then the loop runs to rest) on DatagramEndpoint, the datagram listener adapter and the stream adapter",
         "DESIGN.md section 6 (C20)",
         "TLC explores all interleavings of pause/resume/connection_lost/close/cancel/wake-up for 3 senders; the real WriteFlowControl is "
         "stepped through an edge-covering set of those behaviours (hand-driven coroutines, callbacks released by the harness) and must "
